@@ -158,7 +158,7 @@ func genEntity(rt *rapid.T) ir.Entity {
 
 func TestRandomValues(t *testing.T) {
 	ev.SetChecks(ev.Scale(12000, 900000))
-	rapid.Check(t, func(rt *rapid.T) {
+	ev.Check(t, func(rt *rapid.T) {
 		v := genValue(rt, rapid.IntRange(0, 4).Draw(rt, "depth"))
 		c := &Case{Kind: "value", V: &v, Seq: genSeq(rt)}
 		if !run(c, "value-random", valueNT(v), []string{"value:" + string(v.K)}, func(string, string) {}) {
@@ -169,7 +169,7 @@ func TestRandomValues(t *testing.T) {
 
 func TestRandomEntities(t *testing.T) {
 	ev.SetChecks(ev.Scale(10000, 600000))
-	rapid.Check(t, func(rt *rapid.T) {
+	ev.Check(t, func(rt *rapid.T) {
 		switch rapid.IntRange(0, 3).Draw(rt, "what") {
 		case 0, 1:
 			e := genEntity(rt)
@@ -233,7 +233,7 @@ func genDiagItem(rt *rapid.T, msg bool) DiagItem {
 
 func TestRandomDiagnostics(t *testing.T) {
 	ev.SetChecks(ev.Scale(3000, 200000))
-	rapid.Check(t, func(rt *rapid.T) {
+	ev.Check(t, func(rt *rapid.T) {
 		d := &DiagIR{Allow: rapid.Bool().Draw(rt, "allow")}
 		for i := rapid.IntRange(0, 3).Draw(rt, "nr"); i > 0; i-- {
 			d.Reasons = append(d.Reasons, genDiagItem(rt, false))
@@ -276,7 +276,7 @@ func TestNumbers(t *testing.T) {
 
 func TestRandomNumbers(t *testing.T) {
 	ev.SetChecks(ev.Scale(4000, 300000))
-	rapid.Check(t, func(rt *rapid.T) {
+	ev.Check(t, func(rt *rapid.T) {
 		var s string
 		switch rapid.IntRange(0, 3).Draw(rt, "nsrc") {
 		case 0:
@@ -406,7 +406,7 @@ func tyHasImplicit(t Ty) bool {
 
 func TestRandomCoercion(t *testing.T) {
 	ev.SetChecks(ev.Scale(4000, 300000))
-	rapid.Check(t, func(rt *rapid.T) {
+	ev.Check(t, func(rt *rapid.T) {
 		c := &Case{Kind: "coerce", Seq: genSeq(rt), Mixed: rapid.Bool().Draw(rt, "mixed")}
 		nt := false
 		for _, name := range schemaTypeNames {
